@@ -620,7 +620,6 @@ static uint64_t masks_for_depth(size_t depth, uint64_t pick) {
   uint64_t m = non_format_masks();
   // up to 400 levels: all 32 combinations without FORMAT, FORMAT alone and one more combination with FORMAT
   if (depth <= 400) return m | (1ULL << kFormat) | (1ULL << ((pick & 63) | kFormat));
-  if (depth <= 1100) return m;
   // the standard mask, SORT_DICT_KEYS, everything-but-FORMAT, and four more combinations
   m = (1ULL << 0) | (1ULL << kSort) | (1ULL << (63 & ~kFormat));
   for (unsigned j = 0; j < 4; j++) m |= 1ULL << (((pick >> (8 * j)) & 63) & ~kFormat);
@@ -679,13 +678,14 @@ static void enum_deep(Enum& e) {
     for (unsigned style = 0; style < 4; style++)
       for (unsigned leaf = 0; leaf < 2; leaf++) {
         if (e.stop) return;
+        if (depth > 1001 && leaf != (style == 3 ? 1u : 0u)) continue; // the taller ones: one leaf per style
         if (!e.mine(idx++)) continue;
         uint64_t masks = masks_for_depth(depth, 0x3F2A1504 + depth);
         // thorough: FORMAT alone also on taller chains (2 MB of text at depth 1001, ~12 GB of copying)
         if (e.thorough() && depth > 400 && depth <= 1001 && style == 2 && leaf == 0) masks |= 1ULL << kFormat;
         e.exec(deep_case(depth, style, 0x9E3779B9 + depth, style == 3 ? 1 : 0, "key", leaf ? Node::dict() : Node::integer(7), masks));
       }
-  e.complete(cat("chains of ", depths.size(), " fixed depths (101 .. ", depths.back(), ", among them 999, 1000, 1001) x {lists, dictionaries, alternating, mixed by hash with sibling entries} x {integer, empty dictionary} at the bottom"));
+  e.complete(cat("chains of ", depths.size(), " fixed depths (101 .. ", depths.back(), ", among them 999, 1000, 1001) x {lists, dictionaries, alternating, mixed by hash with sibling entries} x {integer, empty dictionary} at the bottom (beyond depth 1001 one of the two per style)"));
 }
 
 // ---------------------------------------------------------------- assign: copy assignment onto a live target
@@ -1157,7 +1157,7 @@ int main(int argc, char** argv) {
   std::vector<SubCheck> checks;
   checks.push_back({"tree", run_tree, gen_tree, 16000, 300000, 100, enum_fixed});
   checks.push_back({"chain", run_tree, gen_chain, 480, 12000, 100, nullptr});
-  checks.push_back({"deep", run_deep, gen_deep, 64, 1200, 100, enum_deep});
+  checks.push_back({"deep", run_deep, gen_deep, 48, 1200, 100, enum_deep});
   checks.push_back({"assign", run_assign, gen_assign, 24000, 400000, 100, enum_assign});
   checks.push_back({"after_reject", run_after_reject, gen_after_reject, 24000, 400000, 100, enum_after_reject});
   return main_(argc, argv, checks);
